@@ -99,6 +99,22 @@ func (w *whenWorld) Do(st Step) string {
 				rets = []interface{}{9000 + st.Int("r")}
 			}
 			w.wh = w.wh.In(tuples...).Return(rets...)
+		case "Matches":
+			var pairs []arg.Pair
+			for _, pi := range st["pairs"].([]interface{}) {
+				pm := pi.(map[string]interface{})
+				es := exprs(pm["exprs"])
+				var a interface{} = es
+				if len(es) == 1 && !strings.Contains(w.sig, "v") {
+					a = es[0]
+				}
+				pr := arg.Pair{Args: a, Return: 9000 + int(pm["r"].(float64))}
+				if w.sig == "n1" {
+					pr.Return = []interface{}{}
+				}
+				pairs = append(pairs, pr)
+			}
+			w.wh = w.wh.Matches(pairs...)
 		case "CallAll":
 		default:
 			panic("whenWorld op " + st.Str("op"))
